@@ -220,7 +220,7 @@ class Exec:
             a, b = self.pre.get_comp(name), self.st.get_comp(name)
             if ident(a, b):
                 continue
-            self.oblige("frame.%s" % name, comp_eq(name, a, b), self.con.tags, kind="frame")
+            self.oblige("frame.%s" % name, comp_eq(name, a, b), frame_tags(name, self.con.tags), kind="frame")
 
     def finish_normal(self, result):
         self.p.exit = ("return", result)
@@ -1185,6 +1185,22 @@ def _mentions(t, c):
             return True
         stack.extend(x.children())
     return False
+
+
+FRAME_PROPS = [
+    ("heap.", ["C02", "C11", "C12", "C15", "C17"]), ("alloc", ["C02", "C11"]),
+    ("ch.messages", ["C01", "C06", "C13", "C10"]), ("ch.mailbox", ["C05", "C06", "C08", "C10", "C12", "C13"]),
+    ("ch.nameplate", ["C03", "C04", "C06", "C07", "C10", "C13"]), ("us.", ["C15", "C16", "C18"]),
+    ("in_tx.", ["C09", "C10"]), ("out", ["C01", "C02", "C05", "C09", "C17"]), ("np_next", ["C03", "C10"])]
+
+
+def frame_tags(comp, fn_tags):
+    """the properties whose argument relies on component `comp` not being written (attribution of a
+    frame violation), restricted to those that use the function at all"""
+    for prefix, props in FRAME_PROPS:
+        if comp.startswith(prefix):
+            return [p for p in props if p in fn_tags] or list(fn_tags)
+    return list(fn_tags)
 
 
 def make_symbolic_named(spec, base):
